@@ -41,7 +41,11 @@ LEVEL_TEXT = (
     "restarts, kills before/after the write, where EACH action has its own environment: selection, prematch, finalizer requirement "
     "may change with every edit; the state reached converges under finitely-failing scripts), accumulated_change (cause from "
     "last-handled and final essence only, at most one closing pass; the old/new/diff kwargs are checked by the oracle only), "
-    "skip_path_purges, closing_ignores_unselected_records + pass_ignores_unselected_records (the pass after which every SELECTED "
+    "skip_path_purges, last_handled_written_only_by_closing_pass (NO hypothesis: a turn of the loop that changes the last-handled "
+    "state is a turn whose handling pass is reached and CLOSED, and it writes the essence at hand — never a finalizer turn, a blind "
+    "one, the purge of a FREE object; last_handled_kept_by_skipping_turns: nor a turn that skips the handlers for a carried patch or "
+    "the consistency barrier; the oracle states the same of the real request log: 'last-handled stored by a cycle without a "
+    "handling pass' — white-box m4), closing_ignores_unselected_records + pass_ignores_unselected_records (the pass after which every SELECTED "
     "handler has finished closes the cycle and purges every record whatever else the object carries, e.g. the unfinished record, same "
     "purpose, of a handler de-selected while retrying — the states of seed C03d, instance deselected_unfinished_instance; final_state "
     "and converges have no hypothesis excluding them). final_state / converges(_finitely_failing) speak of EVERY object that still exists "
@@ -107,7 +111,8 @@ THEOREMS = [("Kopf.Props.C03", "Kopf.C03." + n) for n in [
     "carried_none", "carried_noop_comes_back", "carried_ops_leaves_event", "carried_converges",
     "carried_noop_witness", "carried_noop_blocks_release_witness",
     "inconsistent_empty", "inconsistent_nonempty_revisited", "inconsistent_converges", "inconsistent_nonempty_witness",
-    "skip_path_purges", "closing_ignores_unselected_records",
+    "skip_path_purges", "last_handled_written_only_by_closing_pass", "last_handled_kept_by_skipping_turns",
+    "closing_ignores_unselected_records",
     "pass_ignores_unselected_records", "deselected_unfinished_instance", "terminates_stable_partial", "unstable_filters_witness", "filtersStable_of_essence"]]
 RULE = ("seeded histories of one object: 1-4 change handlers (create/update/resume/delete, label filters, retries/timeout/backoff/"
         "errors, scripts with finitely many temporary/arbitrary/permanent failures then ok, handlers that take time (8 %), ONE id "
@@ -123,13 +128,20 @@ RULE = ("seeded histories of one object: 1-4 change handlers (create/update/resu
         "handlers with field= filters on different fields (the victim label-filtered in 20 %), the victim retrying/sleeping when "
         "the next change reverts its field and changes another (another handler of the SAME cause kind is selected), stop / kill / "
         "kill before-after the PATCH with the change made during the downtime or around it, then the other field / the victim's "
-        "field / both change again or nothing does (histograms family_class, unselected_unfinished_same_purpose). One case = one history; distinct & non-trivial = distinct (outstanding "
+        "field / both change again or nothing does (histograms family_class, unselected_unfinished_same_purpose). A composition family "
+        "(add_spawning, 12 % / 10 % of the two generators, drawn from a generator of its own so that the rest of the scenario is unchanged): "
+        "a timer (returns nothing) or a daemon (obeys its stop flag) on the resource next to the change handlers — the framework then "
+        "classifies every cycle from the LIVE body it keeps for them and requires its finalizer for every object — mostly followed by an "
+        "edit whose event is lost with a cut of the watch stream (410): the re-listing has to bring the change to the cycle (histogram "
+        "family_class spawning(...)); judged by the oracle, skipped by the tie (`spawning-handlers`). One case = one history; distinct & non-trivial = distinct (outstanding "
         "change, restart kinds, tail pass shapes, final classification) with at least one handler-reason pass or restart. Besides, "
         "the corpus holds one history OUTSIDE the quantifier (`guard_witness`: a deletion handler whose filter reads the framework's "
         "own finalizer): never judged by the oracle, its cycles are compared turn by turn with the Lean instance of "
         "unstable_filters_witness (the loop never settles)")
 TRUSTED = ["harness/sim (virtual-time loop, fake API server, scripted handlers, attribute-level observation of kopf)",
            "harness/props/sim_c03.py (kill hooks on the in-flight PATCH, windowed connection faults, stream cuts, patch-function action)",
+           "harness/sim/observe.py: the placeholder that tells a written `memory.fully_handled_once` from an unwritten one during a pass reads "
+           "like the flag's real value (white-box m3: an always-falsy placeholder hid a change that reads the flag inside the pass)",
            "abstraction of the tail's first pass: records decoded with kopf's own progress storage (C16's subject), "
            "last-handled vs essence taken from kopf's own diff (C04's subject)"]
 ASSUMPTIONS = ["GUARD FiltersStable: selection / prematch / finalizer requirement / handler behaviour do not depend on what the "
@@ -177,6 +189,15 @@ ASSUMPTIONS = ["GUARD FiltersStable: selection / prematch / finalizer requiremen
                "handlers that take time are generated and judged by the oracle; the model's pass has ONE clock reading, so a tail "
                "in which a handler call takes time is skipped by the tie (`handler-takes-time`, counted)",
                "handlers return no result (no status.<handler> write besides the progress record), except on.event constants",
+               "daemons and timers next to the change handlers are generated (a timer that returns nothing, a daemon that obeys its stop "
+               "flag: neither writes to the object) and judged by the oracle; the model has `spawning = false` (their delays, the "
+               "finalizer they require and the live body are C09/C10's), such tails are skipped by the tie (`spawning-handlers`, counted)",
+               "ORACLE readings made precise by the white-box review: (1) the last-handled state may be stored only by a cycle that ran a "
+               "handling pass (request log -> cycle -> `process_changing_cause` reached); (2) the open finding C03-F4 (a change absorbed by a "
+               "cycle that is still OPEN) is recognised only if last-handled was NOT written with or after the handler's success — a finished "
+               "record that outlives the closing of its own cycle is a violation of its own; (3) the deletion handlers that have to complete "
+               "are those whose filters accept the object while the framework still holds it (the last marked version carrying its "
+               "finalizer), not those that match a body edited after a legitimate release",
                "randomized/shuffled lifecycles are not modelled",
                "whether C07's consistency barrier is up is not modelled (`consistent = true`); a held-back cycle is tied only in the "
                "shape of `loopStepI … true` (deadline ahead, non-empty patch that changes nothing: the wait and the handlers are "
@@ -483,6 +504,26 @@ def oracle(ctx: Ctx, sc: dict, tr: dict) -> dict:
             out["class"] = "closed-early"
             return out
 
+    # … and by nothing but a handling pass: a cycle that does not reach `process_changing_cause` (a turn dedicated to the
+    # finalizer, a blind one, one held back by the consistency barrier or starting with a carried patch) has handled
+    # nothing, so it has nothing to record as handled — else the outstanding change (e.g. the creation) is taken for
+    # handled and its handlers are never called (white-box review C03 m4: the state at quiescence looks perfect)
+    by_i = {c["i"]: c for c in tr["cycles"]}
+    for r in tr["requests"]:
+        if r["method"] != "PATCH" or OBJ not in r["path"] or r.get("cycle_i") is None or not isinstance(r.get("payload"), dict):
+            continue
+        val = ((r["payload"].get("metadata") or {}).get("annotations") or {}).get(LAST_HANDLED)
+        cyc = by_i.get(r["cycle_i"])
+        if val is None or cyc is None or cyc.get("pcc") is not None:
+            continue
+        ctx.oracle_fail(f"last-handled state written by a cycle that ran no handling pass (cycle {cyc['i']}, t={r['wall']:.3f}: "
+                        f"{'a finalizer turn' if (cyc.get('apply') or {}).get('fns') else 'no cause handled'}): the change outstanding "
+                        f"at that moment is recorded as handled although no handler was called for it",
+                        {**rep, "cycle": cyc["i"], "request": {k: r.get(k) for k in ("wall", "who", "payload", "response")}},
+                        {"site": "process_resource_causes", "shape": "last-handled stored by a cycle without a handling pass"})
+        out["class"] = "closed-early"
+        return out
+
     # a graceful stop that did not finish within the grace period (the simulated supervisor then killed the operator)
     hung = [m for m in tr["marks"] if m["what"] == "stopped" and m.get("result") == "'stop-timeout'" and not m.get("final")]
     if hung:
@@ -517,8 +558,15 @@ def oracle(ctx: Ctx, sc: dict, tr: dict) -> dict:
     def deletion_handlers_done(lb: dict) -> bool:
         """Every matching MANDATORY deletion handler has a final outcome from a pass on the object marked for deletion."""
         good = True
+        # the handlers selected for the deletion are those whose filters accept the object WHILE the framework holds it: the
+        # last version that is marked and carries the framework's finalizer (what the releasing cycle worked on). An edit
+        # made after the release (the object lingers on somebody else's finalizer: FREE) cannot select anything any more
+        # (white-box review C03: a label flipped after a legitimate release made a deletion handler "match" the last body)
+        lr = next((v["body"] for v in reversed(f.hist) if v["body"]["metadata"].get("uid") == f.uid and v["event"] != "DELETED"
+                   and v["body"]["metadata"].get("deletionTimestamp")
+                   and FINALIZER in (v["body"]["metadata"].get("finalizers") or [])), lb)
         for h in _changing(sc):
-            if h["kind"] != "delete" or h.get("opts", {}).get("optional") or not py_matches(h, lb):
+            if h["kind"] != "delete" or h.get("opts", {}).get("optional") or not py_matches(h, lr):
                 continue        # optional deletion handlers run only if the object happens to be still held
             ev = [c for c in tr["cycles"] if c["uid"] == f.uid and c.get("pcc") and c["body"]["metadata"].get("deletionTimestamp")
                   and c["pcc"]["reason"] == "delete" and (c["pcc"].get("outcomes") or {}).get(kid(h), {}).get("final")]
@@ -568,6 +616,18 @@ def oracle(ctx: Ctx, sc: dict, tr: dict) -> dict:
             return False
         parent = hid.rsplit("/", 1)[0]
         return len({g["kind"] for g in _changing(sc) if kid(g) == parent}) > 1
+
+    def survived_closing(hid: str, c0: dict) -> bool:
+        """The finished record of `hid` that the pass `c0` finds: was last-handled written in the version in which the record
+        became finished, or in a later one (up to the body `c0` works on)? Then the cycle it belongs to was closed, and the
+        closing pass — which purges every record in the very patch that stores last-handled — let it live."""
+        vs = [v["body"] for v in f.hist if v["body"]["metadata"].get("uid") == f.uid and v["event"] != "DELETED"
+              and int(v["body"]["metadata"]["resourceVersion"]) <= int(c0["rv"])]
+        k = len(vs)
+        while k > 0 and ((own_record(vs[k - 1], hid) or {}).get("success") or (own_record(vs[k - 1], hid) or {}).get("failure")):
+            k -= 1
+        raw = lambda b: ((b.get("metadata") or {}).get("annotations") or {}).get(LAST_HANDLED)     # noqa: E731
+        return any(raw(vs[j]) != raw(vs[j - 1]) for j in range(max(k, 1), len(vs)))
 
     def held_while_marked() -> bool:
         return any(v["body"]["metadata"].get("uid") == f.uid and v["body"]["metadata"].get("deletionTimestamp")
@@ -711,6 +771,17 @@ def oracle(ctx: Ctx, sc: dict, tr: dict) -> dict:
                     fail(f"handler {hid} (selected for the outstanding {outstanding}) was never called for it: the id is also registered "
                          f"for {shared_with(h)}, whose finished record was taken for this handler's",
                          {**rep, "record_at_first_pass_on_final_state": rec0}, SIG_N3, tag="C03-N3")
+                elif rec0 and (rec0.get("success") or rec0.get("failure")) and survived_closing(hid, c0):
+                    # NOT the open finding C03-F4 (a change absorbed by a cycle that is still OPEN): the cycle in which the
+                    # handler finished was closed — last-handled was written with or after its success — and the finished
+                    # record is still there (white-box review C03 m6: a deferred purge hid behind F4's signature)
+                    fail(f"handler {hid} (selected for the outstanding {outstanding}) was never called for it: its finished record "
+                         f"survived the closing of the cycle it belongs to (last-handled was written with or after its success) "
+                         f"and was taken for this change's",
+                         {**rep, "record_at_first_pass_on_final_state": rec0, "first_pass": c0["i"]},
+                         {"site": "process_changing_cause", "shape": "finished progress record survived the closing of its cycle: the handler is not called for the next change"},
+                         about=("completion", hid))
+                    out["class"] = "not-completed"
                 elif rec0 and (rec0.get("success") or rec0.get("failure")):
                     fail(f"handler {hid} (selected for the outstanding {outstanding}) never ran against the final essential "
                          f"state: its result on an older state of the same open cycle was kept",
@@ -835,6 +906,10 @@ def abstract_tail(sc: dict, tr: dict, cap: int) -> tuple[list | None, Any]:
         return None, "no-object"
     if f.final is None and not f.last_body["metadata"].get("deletionTimestamp"):
         return None, "deleted-at-once"      # no finalizer held it: the deletion itself ends the history
+    if any(h["kind"] in ("timer", "daemon") for h in sc["handlers"]):
+        # daemons/timers (their delays, the finalizer they require, the live body) are C09/C10's: `spawning = false` in the
+        # model's finalizer decision; the oracle judges these histories
+        return None, "spawning-handlers"
     def _fn(a: Any) -> bool:
         return isinstance(a, list) and bool(a) and a[0] == "fn"
     fn_users = [h for h in sc["handlers"] if any(_fn(a) for a in list(h.get("script", [])) + [h.get("default")])]
@@ -1308,7 +1383,38 @@ def gen_scenario(rng: Any, i: int) -> dict:
     sc["t_silence"] = t
     sc["tq"] = TQ
     sc["end"] = t + 48.0 + 1.5 * fail_time + 2 * TQ
+    add_spawning(sc, i, 0.12)
     return sc
+
+
+def add_spawning(sc: dict, i: int, p: float) -> None:
+    """Composition with the neighbouring mechanism (C09/C10's daemons and timers; white-box review C03 m2): with a daemon or
+    a timer on the resource the framework keeps a LIVE body of the object in its memory, refreshed per event, and classifies
+    the cycle from it instead of from the event's own body; the framework's finalizer is then required for every object.
+    A timer that returns nothing and a daemon that obeys its stop flag write nothing to the object, so every clause of the
+    oracle reads as before. Mostly followed by an edit whose event is lost with a cut of the watch stream (410: the
+    re-listing has to bring the change to the cycle). Drawn from a generator of its own: the rest of the scenario is
+    what it was without this family."""
+    import random
+    r = random.Random(i * 7919 + 13)
+    if r.random() >= p:
+        return
+    n = len(sc["handlers"])
+    if r.random() < 0.6:
+        sc["handlers"].append({"kind": "timer", "id": f"t{n}", "opts": {"interval": r.choice([16.0, 4096.0])}, "script": [], "default": "ok"})
+    else:
+        sc["handlers"].append({"kind": "daemon", "id": f"m{n}", "opts": {}, "daemon": {"mode": "obey", "poll": 0.5}})
+    sc["family2"] = "spawning"
+    tl = sc["timeline"]
+    restarts = any(e[1] in ("stop", "kill", "killw") for e in tl)
+    deleted = any(e[1] == "delete" for e in tl)
+    if r.random() < 0.75 and not deleted and (not restarts or sc.get("family") != "deselect"):
+        t = max([e[0] for e in tl], default=1.0) + r.choice([0.5, 2.0, 6.0])
+        tl.append([t, "edit", "a", {"spec": {"x": 500 + i % 11}}])
+        tl.append([t, "cut"] + (["410"] if r.random() < 0.85 else []))
+        dt = t - float(sc["t_silence"])
+        sc["t_silence"] = t
+        sc["end"] = float(sc["end"]) + dt
 
 
 DESELECT_FIELDS = ["x", "y", "z"]
@@ -1436,6 +1542,7 @@ def gen_deselect(rng: Any, i: int) -> dict:
     sc["t_silence"] = t
     sc["tq"] = TQ
     sc["end"] = t + 48.0 + 1.5 * fail_time + 2 * TQ
+    add_spawning(sc, i, 0.1)
     return sc
 
 
@@ -1508,6 +1615,10 @@ def _evaluate(ctx: Ctx, scenarios: list[dict], tie: bool = True) -> None:
         ctx.count("outstanding", o.get("outstanding"))
         if sc.get("family"):
             ctx.count("family_class", f"{sc['family']}:{o['class']}")
+        if sc.get("family2"):
+            sp = next((h for h in sc["handlers"] if h["kind"] in ("timer", "daemon")), {})
+            relist = any(e[1] == "cut" and len(e) > 2 for e in sc.get("timeline", []))
+            ctx.count("family_class", f"spawning({sp.get('kind')}{', change brought by a re-listing' if relist else ''}):{o['class']}")
         # passes in which the object carries the UNFINISHED record, same purpose, of a handler that is not selected (any more)
         for c in tr["cycles"]:
             p = c.get("pcc")
@@ -1609,8 +1720,11 @@ def search(ctx: Ctx, broken: list) -> None:
     """A proof/tie is broken: look for a concrete failing history with the oracle at a larger budget."""
     scenarios = []
     for b in broken[:10]:
-        sc = (b.replay or {}).get("input", {}).get("scenario") if isinstance(b.replay, dict) else None
-        if sc:
+        inp = (b.replay or {}).get("input", {}) if isinstance(b.replay, dict) else {}
+        sc = inp.get("scenario")
+        # (a guard witness is a history OUTSIDE the quantifier — it never settles by design — and is never judged by the
+        # oracle: a broken tie on it must not come back from the search as a "failing input"; white-box review C03 m4)
+        if sc and not inp.get("guard_witness"):
             scenarios.append(sc)
     n = ctx.budget(1200, 8000)
     scenarios += [gen_deselect(ctx.rng, 83_000_000 + ctx.seed * 100000 + i) for i in range(n // 4)]
